@@ -1,3 +1,5 @@
 pub mod brokerlib;
 pub mod det;
 pub mod report;
+pub mod sim;
+pub mod c09keys;
